@@ -1,5 +1,5 @@
 SPECIFICATION Spec
-CONSTANT Inputs <- InputsQuick
+CONSTANT Tier = "quick"
 INVARIANT RouteOk
 INVARIANT VerpOk
 INVARIANT InDomain
